@@ -94,8 +94,9 @@ class QueueAnalysis:
                         describe_path(r))
         chk.require(n >= 1, rid_pair, b.defp + ":analysed", b.span, "no return path")
 
-    def rule_pop(self, chk, rid_fifo, rid_term, rid_handout):
-        """P1/T4/K4 for pop"""
+    def rule_pop(self, chk, rid_fifo, rid_term, rid_handout, seq=False):
+        """P1/T4/K4 for pop.  seq=True (single-threaded properties): a lookup of the popped ticket followed by the
+        removal of the same key is accepted as equivalent to handing out the removal's payload."""
         b, res, _ = self.paths("pop")
         kinds = {"some": 0, "none": 0, "retry": 0}
         for r in res:
@@ -114,6 +115,9 @@ class QueueAnalysis:
                             "the loop continues without having consumed a ticket", describe_path(r))
                 rem = [e for e in mp if e[1] == "MAP.remove"]
                 ok2 = len(rem) >= 1 and r.facts.variant.get(rem[-1][3]) == "None"
+                if seq and not ok2:
+                    gets = [e for e in mp if e[1] == "MAP.get"]
+                    ok2 = len(gets) >= 1 and r.facts.variant.get(gets[-1][3]) == "None"
                 chk.require(ok2, rid_fifo, b.defp + ":retry-only-on-miss", b.span,
                             "pop retries although the ticket's order was found", describe_path(r))
                 continue
@@ -127,6 +131,10 @@ class QueueAnalysis:
                 payload = dict(v[3])["0"] if isinstance(v, tuple) and v[0] == "agg" else None
                 rem = [e for e in mp if e[1] == "MAP.remove"]
                 ok = payload is not None and len(rem) >= 1 and payload == ("field", ("field", rem[-1][3], "Some", "0"), None, "1")
+                if seq and not ok and payload is not None and rem:
+                    # sequentially, get(k) followed by remove(k) yields the same entry
+                    gets = [e for e in mp if e[1] == "MAP.get"]
+                    ok = len(gets) == 1 and eff_in(payload, "MAP.get") == gets[0][3] and self._same_key(r, gets[0], rem[-1])
                 chk.require(ok, rid_handout, b.defp + ":hands-out-removed-entry", b.span,
                             "pop returns %s, which is not the entry its own map.remove took out" % short(payload), describe_path(r))
                 # the removed key is the ticket just popped
@@ -145,7 +153,7 @@ class QueueAnalysis:
                             okk = False
                     chk.require(okk, rid_fifo, b.defp + ":removes-popped-ticket", b.span,
                                 "pop removes key %s, not the ticket it just took" % short(kref), describe_path(r))
-                others = [e for e in mp if e[1] not in ("MAP.remove",)]
+                others = [e for e in mp if e[1] not in (("MAP.remove", "MAP.get") if seq else ("MAP.remove",))]
                 chk.require(not others, rid_handout, b.defp + ":no-other-map-ops", b.span, "pop also performs %s" % [e[1] for e in others])
             elif var == "None":
                 kinds["none"] += 1
@@ -157,6 +165,16 @@ class QueueAnalysis:
                 chk.fail(rid_handout, b.defp + ":return-shape", b.span, "pop returns %s" % short(v), describe_path(r), undecided=True)
         chk.require(kinds["some"] >= 1 and kinds["none"] >= 1 and kinds["retry"] >= 1, rid_fifo, b.defp + ":shape", b.span,
                     "pop paths: %s (expected a hit, an exhausted-queue exit and a skip-stale-ticket retry)" % kinds)
+
+    def _same_key(self, r, e1, e2):
+        def keyval(e):
+            # argument values as seen at call time (shared refs to locals are recorded by value)
+            k = e[7][1] if len(e) > 7 else e[2][1]
+            if isinstance(k, tuple) and k[0] == "refval":
+                return k[1]
+            return k
+        a, b = keyval(e1), keyval(e2)
+        return a is not None and a == b
 
     def rule_remove_find(self, chk, rid):
         """K4: remove hands out the payload of MAP.remove(id); find/to_vec hand out clones from MAP.get/iter"""
@@ -261,6 +279,8 @@ class QueueAnalysis:
                 base = t[1][2][0] if t[1][2] else None
                 t = base[1] if isinstance(base, tuple) and base[0] == "refval" else base
             ok_src = eff_in(v, "MAP.iter") is not None and "collect" in short(v)
+            if not ok_src:
+                ok_src = self._listing_by_push_loop(b, res, v)
             chk.require(ok_src, rid, b.defp + ":collect-over-map-iter", b.span, "listing is %s" % short(v)[:300], describe_path(r))
             sorts = [m for m in muts if isinstance(m, tuple) and m[0] == "call" and ("sort" in m[1])]
             chk.require(len(muts) == len(sorts) and len(sorts) == 1, rid, b.defp + ":sorted-last", b.span,
@@ -269,6 +289,33 @@ class QueueAnalysis:
                 ok, why = self._sort_key_is_timestamp(sorts[0])
                 chk.require(ok, rid, b.defp + ":sort-key-timestamp", b.span, why, describe_path(r))
             chk.require(not self.effs(r, "TICKET"), rid, b.defp + ":no-ticket", b.span, "to_vec touches the ticket queue")
+
+    def _listing_by_push_loop(self, b, res, v):
+        """idiom B: `let mut out = Vec::new(); for e in self.orders.iter() { out.push(e.value().clone()) }` - the listing is
+        the loop-carried vector of a loop over the map's iteration that pushes exactly the current entry once"""
+        hv = [s for s in subterms(v) if isinstance(s, tuple) and s[0] == "havoc" and len(s) == 3 and isinstance(s[2], int)]
+        if len(hv) != 1:
+            return False
+        key, l = hv[0][1], hv[0][2]
+        iters = [r for r in res if r.kind == "backedge" and r.trace and any(e[0] == "loop" and e[1] == key for e in r.trace)]
+        if not iters:
+            return False
+        for r in iters:
+            mark = [e for e in r.trace if e[0] == "loop" and e[1] == key][0]
+            pre = mark[2].get(l)
+            if not (isinstance(pre, tuple) and pre[0] == "call" and pre[1].endswith("Vec::new")):
+                return False
+            if not any(eff_in(x, "MAP.iter") is not None for x in mark[2].values() if isinstance(x, tuple)):
+                return False
+            seg = r.since_loop()
+            pushes = [e for e in seg if e[0] == "call" and e[1].endswith("Vec::push") and e[2] and isinstance(e[2][0], tuple)
+                      and e[2][0][0] == "ref" and e[2][0][1][1][0] == "local" and e[2][0][1][1][2] == l]
+            nexts = [e for e in seg if e[0] == "call" and e[1].endswith("::next")]
+            if len(pushes) != 1 or len(nexts) != 1:
+                return False
+            if not any(s == nexts[0][3] for s in subterms(pushes[0][3][2][1])):
+                return False
+        return True
 
     def _sort_key_is_timestamp(self, sortcall):
         """accepted idioms: sort_by_key(|o| o.timestamp()), sort_by/sort_unstable_by(|a,b| a.timestamp().cmp(&b.timestamp()))"""
@@ -315,22 +362,30 @@ class QueueAnalysis:
         cands.append(self.db.method("OrderQueueVisitor", "visit_seq", trait="Visitor"))
         for b in cands:
             w = self.ctx.walker()
-            w.effect_of = make_effect_fn({"Q", "MAP", "TICKET"})
+            base_eff = make_effect_fn({"MAP", "TICKET"})
+
+            def eff(callee, args, st, walker, base_eff=base_eff):
+                c = classify(callee)
+                if c is not None and c[0] == "Q":
+                    # push/new are the primitives; sibling constructors (from_vec ...) are inlined
+                    return "Q.%s" % c[1] if c[1] in ("push", "new") else None
+                return base_eff(callee, args, st, walker)
+            w.effect_of = eff
             # element parsers / deserializers are opaque here: only the constructor's own iteration matters
             w.no_inline = lambda p: "order_queue" not in p
             res = w.walk(b)
-            iters = [r for r in res if r.kind == "backedge" and r.detail[1] == b.defp]
+            iters = [r for r in res if r.kind == "backedge" and ("order_queue" in r.detail[1] or r.detail[1] == "<for_each>")]
             chk.require(len(iters) >= 1, rid, b.defp + ":has-loop", b.span, "constructor has no element loop")
             bad_calls = set()
             for r in res:
                 for e in r.trace:
-                    if e[0] == "call" and len(e[4]) == 1 and any(x in e[1] for x in ("::rev", "sort", "::reverse", "pop", "swap", "rposition", "next_back", "rsplit", "rfold", "into_sorted", "BinaryHeap", "BTree", "HashMap", "HashSet")):
+                    if e[0] == "call" and (len(e[4]) == 1 or "order_queue" in e[4][-1][0]) and any(x in e[1] for x in ("::rev", "sort", "::reverse", "pop", "swap", "rposition", "next_back", "rsplit", "rfold", "into_sorted", "BinaryHeap", "BTree", "HashMap", "HashSet")):
                         bad_calls.add(e[1])
             chk.require(not bad_calls, rid, b.defp + ":forward-iteration", b.span, "order-changing calls on the way: %s" % sorted(bad_calls))
             for r in iters:
                 seg = r.since_loop()
                 pushes = [e for e in seg if e[0] == "eff" and e[1] == "Q.push"]
-                nexts = [e for e in seg if e[0] == "call" and len(e[4]) == 1 and (e[1].endswith("::next") or e[1].endswith("next_element"))]
+                nexts = [e for e in seg if e[0] == "call" and (len(e[4]) == 1 or "order_queue" in e[4][-1][0]) and (e[1].endswith("::next") or e[1].endswith("next_element"))]
                 ok = len(pushes) == 1 and len(nexts) >= 1
                 if not chk.require(ok, rid, b.defp + ":one-push-per-element", b.span,
                                    "an iteration performs %d pushes for %d element fetches" % (len(pushes), len(nexts)), describe_path(r)):
